@@ -259,6 +259,11 @@ Definition minimize_translate (s : sp_result) : option (list Q * wr_info) :=
 Definition minimize_translate_get (s : sp_result) : list Q * wr_info :=
   (sp_x s, mk_info (sp_success s) (sp_message s) (sp_fun s) (sp_jac s) (sp_nit s) (sp_nfev s)).
 
+(* the repaired maximize.solve (fixes/C16_maximize_info_sign.diff): "func" and "grad" of the info are
+   negated back so that they refer to the maximised function *)
+Definition maximize_translate_fixed (s : sp_result) : list Q * wr_info :=
+  (sp_x s, mk_info (sp_success s) (sp_message s) (- sp_fun s)%Q (option_map (map Qopp) (sp_jac s)) (sp_nit s) (sp_nfev s)).
+
 (* maximize(func, x0, gradfunc) = minimize(-func, x0, -gradfunc): the optimiser is an oracle that is
    handed the negated objective; the info it returns is passed on untouched (so "func"/"grad"
    are those of the NEGATED objective: faithful to the code) *)
@@ -270,6 +275,9 @@ Definition neg_grad (g : X -> list Q) : X -> list Q := fun x => map Qopp (g x).
 Definition minimize_solve (f : X -> Q) (g : option (X -> list Q)) (x0 : X) : X * Q := optimiser f g x0.
 Definition maximize_solve (f : X -> Q) (g : option (X -> list Q)) (x0 : X) : X * Q :=
   minimize_solve (neg_fun f) (option_map neg_grad g) x0.
+(* repaired: the reported value is negated back *)
+Definition maximize_solve_fixed (f : X -> Q) (g : option (X -> list Q)) (x0 : X) : X * Q :=
+  let '(x, v) := maximize_solve f g x0 in (x, (- v)%Q).
 End Maximize.
 
 (* L_BFGS_B: warnflag -> (success, message) *)
@@ -381,7 +389,9 @@ Definition check_pcgls_iters (n : nat) (A : list (list Q)) (b x0 : list Q) (P Pi
   let fwd := qmatvec Am in let adj := qmattvec n Am in
   let pinv := qmatvec Pi in let pinvT := qmattvec n Pi in
   is_inverse n (qmat P) Pi &&
-  check_iterates (q_pcgls_step fwd adj pinv pinvT) tol9 (q_pcgls_init fwd adj (qvec b) pinvT (qvec x0)) obs.
+  (* 1e-6: the preconditioner may worsen the conditioning (cond(P) <= 50, so cond(P^-T A^T A P^-1) up to ~1e7);
+     the float iterates at k ~ n then carry relative errors up to ~1e-9 *)
+  check_iterates (q_pcgls_step fwd adj pinv pinvT) tol6 (q_pcgls_init fwd adj (qvec b) pinvT (qvec x0)) obs.
 
 Definition check_pcgls_solve (n : nat) (A : list (list Q)) (b x0 : list Q) (P Pinv : list (list Q)) (shift : Q)
            (maxit : nat) (tol : Q) (obs_x : list Q) (obs_k : nat) (cert : bool) : bool :=
@@ -456,6 +466,8 @@ Definition check_minimize (s : sp_result) (obs_x : list Q) (obs_info : wr_info) 
   end.
 Definition check_minimize_nojac (s : sp_result) (obs_x : list Q) (obs_info : wr_info) : bool :=
   let '(mx, mi) := minimize_translate_get s in ql_eqb mx obs_x && info_eqb mi obs_info.
+Definition check_maximize_fixed (s : sp_result) (obs_x : list Q) (obs_info : wr_info) : bool :=
+  let '(mx, mi) := maximize_translate_fixed s in ql_eqb mx obs_x && info_eqb mi obs_info.
 (* maximize: the objective/gradient SciPy was handed, probed at points, are the negations *)
 Definition check_negated (probes : list (Q * Q)) : bool :=
   forallb (fun fp => Qeq_bool (snd fp) (- fst fp)) probes.
